@@ -17,18 +17,20 @@ TIMEOUT_MS = {"quick": 8000, "thorough": 30000}
 POPS = ["π1", "π2"]
 
 
-def run_trso(g: GSpec, X, Y, domains):
-    """domains: list of (Z_i, W_i) for populations π1, π2, ..."""
+def run_trso(g: GSpec, X, Y, domains, reverse_keys=False):
+    """domains: list of (Z_i, W_i) for populations π1, π2, ...  With reverse_keys the surrogate_interventions mapping
+    lists its populations in the opposite order (the two mappings are keyed by population; their key order is free)."""
     from y0.algorithm.transport import identify_target_outcomes
     from y0.dsl import Variable
 
     V = lambda s: {Variable(n) for n in s}
+    idx = list(enumerate(domains))
     return identify_target_outcomes(
         g.to_nx(),
         target_outcomes=V(Y),
         target_interventions=V(X),
-        surrogate_outcomes={Variable(POPS[i]): V(W) for i, (Z, W) in enumerate(domains)},
-        surrogate_interventions={Variable(POPS[i]): V(Z) for i, (Z, W) in enumerate(domains)},
+        surrogate_outcomes={Variable(POPS[i]): V(W) for i, (Z, W) in idx},
+        surrogate_interventions={Variable(POPS[i]): V(Z) for i, (Z, W) in (reversed(idx) if reverse_keys else idx)},
     )
 
 
@@ -154,6 +156,22 @@ def work(job):
             rec["est"] = str(est)
             rec.update(check_case(g, X, Y, domains, est, timeout_ms, env_mode))
         res.append(rec)
+        if len(domains) >= 2:
+            # the same input with the populations of surrogate_interventions listed in the opposite order
+            rec2 = {"g": g.to_json(), "X": X, "Y": Y, "domains": domains, "reverse_keys": True, "id_identifiable": rec["id_identifiable"]}
+            try:
+                est2 = run_trso(g, X, Y, domains, reverse_keys=True)
+            except Exception as e:  # noqa: BLE001
+                rec2.update(status="crash", exc=f"{type(e).__name__}: {short(e, 160)}")
+                res.append(rec2)
+                continue
+            if str(est2) != str(est):
+                if est2 is None:
+                    rec2["status"] = "none"
+                else:
+                    rec2.update(status="estimand", est=str(est2))
+                    rec2.update(check_case(g, X, Y, domains, est2, timeout_ms, env_mode))
+                res.append(rec2)
     return res
 
 
@@ -180,7 +198,9 @@ def deep_jobs(t, to):
         return []
     cases = json.loads(f.read_text())["cases"]
     if t == "quick":
-        cases = cases[seed() % 3 :: 3]
+        arm = [c for c in cases if c.get("sig", "").startswith("arm:")]
+        rest = [c for c in cases if not c.get("sig", "").startswith("arm:")]
+        cases = arm + rest[seed() % 3 :: 3]
     return [(GSpec.from_json(c["g"]), [(c["X"], c["Y"], [tuple(d) for d in c["domains"]])], to, "diag") for c in cases]
 
 
@@ -243,8 +263,9 @@ def run() -> int:
         "returned Expression -> z3 polynomial terms over a multi-domain family of SCMs (vf/sem/l2.py with per-domain tables)",
     ]
     rep.bounds = {
-        "deep_corpus": "5- and 6-node inputs (1-2 source domains, |Z_i|, |W_i| <= 2, insertion order shuffled) on which TRSO reaches line 9 or line 10, up to 3 per distinct sequence of fired line helpers (vf/data/trso_deep.json, inputs only); quick: every third case, thorough: all; all-equal value assignments",
+        "deep_corpus": "5- and 6-node inputs (1-2 source domains, |Z_i|, |W_i| <= 2, insertion order shuffled) on which TRSO reaches line 9 or line 10, up to 3 per distinct sequence of fired line helpers (vf/data/trso_deep.json, inputs only), plus 95 six-node inputs built from a curated or 3-node graph and an experimental arm U -> V -> y, V <-> t with the surrogate experiment do(U) observing V; quick: the arm inputs and every third of the others, thorough: all; all-equal value assignments",
         "graphs": "quick: ADMGs <=2 nodes (all one-domain inputs), 3 nodes (1/3 of the one-domain inputs, 1/13 of the two-domain inputs), front-door / bow / IV / napkin / fig.3 curated; thorough: all ADMGs on 3 nodes under two labellings (all one-domain inputs, 1/3 two-domain), 1/8 of the 4-node classes, curated 4-node graphs",
+        "argument_forms": "every two-domain input is also given with the populations of the surrogate_interventions mapping listed in the opposite order; a differing result is checked like any other",
         "domains": "1-2 source domains, experiment set Z_i of <=2 (1) variables possibly empty, non-empty surrogate-outcome set W_i disjoint from Z_i",
         "models": "families of positive binary SCMs with one binary latent per bidirected edge: every table and every latent prior is shared with the target except the tables of the nodes that the library's own selection diagram (get_nodes_to_transport) marks for that domain, which are independent parameters",
         "rsi": "get_nodes_to_transport over every ADMG on N nodes and all non-empty disjoint node sets Z, W: N = 4 (quick), 4-5 (thorough)",
@@ -265,9 +286,9 @@ def run() -> int:
             rep.cases += 1
             g = GSpec.from_json(r["g"])
             dom = "; ".join(f"{POPS[i]}: do({','.join(Z)}) obs {','.join(W)}" for i, (Z, W) in enumerate(r["domains"]))
-            key = f"{g.key()} do({','.join(r['X'])}) -> {','.join(r['Y'])} [{dom}]"
+            key = f"{g.key()} do({','.join(r['X'])}) -> {','.join(r['Y'])} [{dom}]" + (" (keys of surrogate_interventions reversed)" if r.get("reverse_keys") else "")
             rep.count(r["status"])
-            base = {"property": PROP, "graph": r["g"], "X": r["X"], "Y": r["Y"], "domains": r["domains"], "hashseed": hashseed()}
+            base = {"property": PROP, "graph": r["g"], "X": r["X"], "Y": r["Y"], "domains": r["domains"], "reverse_keys": bool(r.get("reverse_keys")), "hashseed": hashseed()}
             if r["status"] == "crash":
                 rep.add_violation(Violation(PROP, [key, "crash:" + r["exc"].split(":")[0]], f"identify_target_outcomes raised {r['exc']} for {key}", dict(base, kind="crash", exc=r["exc"])))
                 continue
@@ -341,7 +362,7 @@ def replay(payload: dict) -> int:
     X, Y, domains = payload["X"], payload["Y"], [tuple(d) for d in payload["domains"]]
     print("graph", g.key(), "X", X, "Y", Y, "domains", domains)
     try:
-        est = run_trso(g, X, Y, domains)
+        est = run_trso(g, X, Y, domains, reverse_keys=bool(payload.get("reverse_keys")))
     except Exception as e:  # noqa: BLE001
         print(f"raised {type(e).__name__}: {e}")
         return 1 if payload["kind"] == "crash" else 0
